@@ -328,7 +328,13 @@ def placementSpec (P : Params) (maxForce : Rat) (m : Nat → Option V3) (point :
     | some _, some d2 => decide (rabs (d2 - stepLen * stepLen) ≤ tol * (stepLen * stepLen))
   let others := (List.range P.n).filterMap fun h =>
     if h = g then none else (m h).map fun q => minImageSq point q P.L
-  let frc := specForce P m point g excl
+  -- the force of the statement: from the positioned residues within the cut-off that are not excluded
+  -- (bonded neighbours); no floor involved (that is `floorOk`).  A coincident residue gives `inf`
+  -- (the rational formula is totalised at r = 0, which must not read as "no force").
+  let nearNE := (specNear P m point).filter (fun e => !excl.contains e.1)
+  let frc : Force :=
+    if nearNE.any (fun e => decide (e.2.2 = 0)) then .inf
+    else .vec (V3.sum (nearNE.map fun e => pairForce (P.inter g e.1).1 (P.inter g e.1).2 point e.2.1 P.L))
   { inBox := decide (inBox point P.L),
     stepD2 := stepD2,
     stepOk := stepOk,
